@@ -53,6 +53,10 @@ pub fn run(ctx: &Ctx) -> i32 {
                     if in_family {
                         if got != written { a.col.add(format!("C14/{ty}/wrong-variant:{written}->{got}"), i as u64, || format!("parse_with_variant(.., {:?}) returned option {got}", letter), case); }
                         else if own_parser_accepts(&written, c) == Some(false) { a.col.add(format!("C14/{ty}/accepted-what-option-rejects:{written}"), i as u64, || format!("{written}'s own parser rejects the content"), case); }
+                    } else if letter.is_none() {
+                        // "parsed without an option letter": any member whose own parser accepts the content is fine
+                        // (judged below on T::parse); the two letter-less entry points must simply agree
+                        if let Ok(Ok(v0)) = guarded(|| <T as SwiftField>::parse(c)) { if format!("{:?}", v0) != format!("{:?}", v) { a.col.add(format!("C14/{ty}/letterless-entry-points-differ:{got}"), i as u64, || format!("parse_with_variant(.., None) gave {:?}, parse gave {:?}", v, v0), case); } }
                     } else {
                         let class = match letter { None => "none".to_string(), Some(l) => if m1::kind(&format!("{num}{l}")).is_some() { "letter-of-another-family".to_string() } else { "unused-letter".to_string() } };
                         a.col.add(format!("C14/{ty}/foreign-letter-accepted:{class}"), i as u64, || format!("letter {:?} is not an option of {ty}; got option {got}", letter), case);
